@@ -582,3 +582,32 @@ def signed_input(eng, st, inp, priv, msg):
     made = eng.uf('ecdsa_signed', BYTES_SORT, BYTES_SORT, BYTES_SORT, z3.BoolSort())
     return V(z3.And(o.is_some(sig_opt), Sig.recog(sig),
                     made(eng.term(priv, BYTES, st), eng.term(msg, BYTES, st), Sig.acc['signature'](sig))), BOOL)
+
+
+# ---- C07 / RT1: the VLQ decoder reads back what the VLQ encoder wrote (part of the trusted summary of the pair) ---------
+
+def _vlq_operand_at(eng, st, data_t, p0_t):
+    """the operand of the concatenation `data` that starts exactly at offset p0, if it is an encoder output vlq(i)"""
+    ops = eng._concat_args(data_t) if z3.is_app_of(data_t, z3.Z3_OP_SEQ_CONCAT) else [data_t]
+    acc = z3.IntVal(0)
+    for op in ops:
+        if z3.is_app(op) and op.decl().kind() == z3.Z3_OP_UNINTERPRETED and op.decl().name().startswith('vlq_enc'):
+            if eng.entails(st, z3.simplify(acc) == p0_t):
+                return op
+        acc = acc + z3.Length(op)
+    return None
+
+
+@GH.ghost('vlq_readback')
+def vlq_readback(eng, st, d0, p0, result, newpos):
+    dt, pt = eng.term(d0, BYTES, st), eng.term(p0, INT)
+    op = _vlq_operand_at(eng, st, dt, pt)
+    if op is None:
+        return V(z3.BoolVal(True), BOOL)
+    return V(z3.And(eng.term(result, INT) == op.arg(0), eng.term(newpos, INT) == pt + z3.Length(op)), BOOL)
+
+
+@GH.ghost('vlq_at')
+def vlq_at(eng, st, d0, p0):
+    op = _vlq_operand_at(eng, st, eng.term(d0, BYTES, st), eng.term(p0, INT))
+    return V(z3.BoolVal(op is not None), BOOL)
